@@ -47,6 +47,18 @@ def run(R, job):
         except TypeError:
             return items
 
+    def oneshot(it):
+        """the same items as an iterable that can be consumed only once (generator, iterator, map) - or as given"""
+        k = r.random()
+        if isinstance(it, str) or k < 0.5:
+            return it
+        items = list(it)
+        if k < 0.7:
+            return (x for x in items)
+        if k < 0.85:
+            return iter(items)
+        return map(lambda x: x, items)
+
     def model(x, out):
         """independent flattening: returns False if something is not a child"""
         if isinstance(x, (list, tuple, core.TagList)):
@@ -68,6 +80,22 @@ def run(R, job):
         out = []
         return model(x, out)
 
+    # a fixed battery first (whatever the seed): values of unsupported type are rejected wherever they are given, alone or not
+    import decimal
+    unsupported = [{1, 2}, frozenset(["a"]), {"class": "a"}, {"k": 1}.keys(), {"k": 1}.values(), {"k": 1}.items(), b"x", bytearray(b"y"), range(2), (x for x in ["g"]), iter(["i"]),
+                   map(str, [1]), object(), decimal.Decimal("1"), 2j, type, len, NotImplemented]
+    for v in unsupported:
+        for how, call in (("TagList(v)", lambda: core.TagList(v)), ("TagList('a', v)", lambda: core.TagList("a", v)), ("Tag('div', v)", lambda: core.Tag("div", v)),
+                          ("Tag('div', [v])", lambda: core.Tag("div", [v])), ("TagList().append(v)", lambda: core.TagList().append(v)), ("TagList().insert(0, v)", lambda: core.TagList().insert(0, v)),
+                          ("TagList().extend([v])", lambda: core.TagList().extend([v])), ("Tag('div').append(v)", lambda: core.Tag("div").append(v))):
+            if isinstance(v, dict) and how == "Tag('div', v)":
+                continue          # a dict given directly to Tag() is an attribute set
+            checked += 1
+            try:
+                call()
+                fails.append({"input": f"{how} with v = {type(v).__name__}", "observed": "accepted", "expected": "TypeError"})
+            except TypeError:
+                pass
     for _ in range(n):
         tl = core.TagList()
         ref = []
@@ -91,7 +119,7 @@ def run(R, job):
                 elif op == "extend":
                     it = a if isinstance(a, (list, tuple, core.TagList, str)) else [a]
                     ok = model(list(it) if not isinstance(it, str) else it, out); exp = ref + out
-                    tl.extend(it)
+                    tl.extend(oneshot(it))
                 elif op == "insert":
                     i = r.choice([0, 1, -1, 100, -100, len(ref)])
                     ok = model(a, out)
@@ -115,10 +143,19 @@ def run(R, job):
                 elif op == "iadd":
                     it = a if isinstance(a, (list, tuple, core.TagList, str)) else [a]
                     ok = model(list(it) if not isinstance(it, str) else it, out); exp = ref + out
-                    tl += it
+                    tl += oneshot(it)
                 elif op == "ctor":
                     ok = model(a, out); exp = ref + out
-                    tl = core.TagList(tl, a)
+                    if r.random() < 0.4:
+                        # the value as the ONLY argument (an unsupported one is rejected there too, whatever it can be iterated into)
+                        out = []; ok = model(a, out); exp = out
+                        if isinstance(a, dict) and r.random() < 0.5:
+                            tl = core.TagList(a)
+                        else:
+                            lone = core.TagList(a) if (isinstance(a, dict) or r.random() < 0.5) else core.Tag("div", a).children
+                            tl = lone
+                    else:
+                        tl = core.TagList(tl, a)
                 elif op == "tag.ctor":
                     # children given to the Tag constructor itself (falsy ones included: 0, "", False, HTML(""))
                     more = [arg(1) for _ in range(r.choice([0, 1, 2]))] + [r.choice([0, "", False, 0.0, core.HTML("")])]
@@ -130,7 +167,20 @@ def run(R, job):
                         if not isinstance(m_, dict):
                             ok = model(m_, out) and ok
                     exp = out
-                    tl = core.Tag("div", tl, a, *more).children
+                    if r.random() < 0.3:
+                        # the list itself as the only argument: the tag gets its own child list (changing one does not change the other)
+                        a, more, out = None, [], []
+                        ok = model(list(tl), out); exp = out
+                        src_ = tl
+                        T_ = core.Tag("div", src_)
+                        if T_.children is src_:
+                            raise AssertionError("alias-ctor")
+                        src_.append("probe"); shared = len(T_.children) != len(exp); src_.pop()
+                        if shared:
+                            raise AssertionError("alias-ctor")
+                        tl = T_.children
+                    else:
+                        tl = core.Tag("div", tl, a, *more).children
                 elif op.startswith("tag."):
                     t = core.Tag("div"); t.children = tl
                     ok = model(a, out)
@@ -142,7 +192,7 @@ def run(R, job):
                     elif op == "tag.extend":
                         it = a if isinstance(a, (list, tuple, core.TagList, str)) else [a]
                         out = []; ok = model(list(it) if not isinstance(it, str) else it, out); exp = ref + out
-                        t.extend(it)
+                        t.extend(oneshot(it))
                     else:
                         i = r.choice([0, 1, -1, 50]); exp = list(ref); exp[i:i] = out; t.insert(i, a)
                     tl = t.children
@@ -154,9 +204,13 @@ def run(R, job):
                 raised = False
             except TypeError:
                 raised = True
-            except AssertionError:
-                fails.append({"input": " ; ".join(log) + f" ; {op}(empty or not: {type(a).__name__})", "observed": "`tl + x` returned (or shares its items with) the left operand: changing the sum changed the operand",
-                              "expected": "a new list"})
+            except AssertionError as ae:
+                if "alias-ctor" in str(ae):
+                    fails.append({"input": " ; ".join(log) + " ; Tag('div', <that TagList>)", "observed": "the tag's child list is (or shares its items with) the TagList passed to the constructor",
+                                  "expected": "an independent child list holding the same nodes"})
+                else:
+                    fails.append({"input": " ; ".join(log) + f" ; {op}(empty or not: {type(a).__name__})", "observed": "`tl + x` returned (or shares its items with) the left operand: changing the sum changed the operand",
+                                  "expected": "a new list"})
                 break
             checked += 1
             log.append(f"{op}({ctx.describe(a) if not isinstance(a, (list, tuple)) else repr(type(a).__name__) + ':' + str(len(a))})")
